@@ -5,11 +5,12 @@
 // policy renderer can emit; anything else is an error (never skipped).
 //
 // Tables that are knowledge about netfilter, not about Felix (trusted):
-//   protocol names  tcp=6 udp=17 icmp=1 icmpv6/ipv6-icmp=58 sctp=132 udplite=136
-//   MARK --set-mark v/m      : mark = (mark & ^m) ^ v
-//   nft mark set mark or X   : mark = mark | X  = (mark & ^X) ^ X
-//   nft mark set mark & A ^ X: mark = (mark & A) ^ X        (nft precedence: & binds tighter than ^)
-//   multiport / th sport need a port-bearing -p / l4proto in the same rule; -m icmp needs -p icmp
+//
+//	protocol names  tcp=6 udp=17 icmp=1 icmpv6/ipv6-icmp=58 sctp=132 udplite=136
+//	MARK --set-mark v/m      : mark = (mark & ^m) ^ v
+//	nft mark set mark or X   : mark = mark | X  = (mark & ^X) ^ X
+//	nft mark set mark & A ^ X: mark = (mark & A) ^ X        (nft precedence: & binds tighter than ^)
+//	multiport / th sport need a port-bearing -p / l4proto in the same rule; -m icmp needs -p icmp
 package main
 
 import (
